@@ -486,6 +486,14 @@ def run(ctx):
                 A3 = np.column_stack([c0, c0 + gen.unit_axis(rng) * side, c0 + gen.unit_axis(rng) * side])
                 if np.linalg.norm(np.cross(A3[:, 1] - A3[:, 0], A3[:, 2] - A3[:, 0])) < 0.2 * side * side:
                     continue
+            elif rng.random() < 0.3:     # thin triangle: two vertices close together, the third far away (angle at it 1e-4 .. 1e-1 rad)
+                p0, p1 = gen.unit_axis(rng) * gen.logu(rng, 1e1, 1e3), gen.unit_axis(rng) * gen.logu(rng, 1e1, 1e3)
+                d01 = float(np.linalg.norm(p1 - p0))
+                off = np.cross(p1 - p0, gen.unit_axis(rng))
+                if d01 < 1.0 or np.linalg.norm(off) < 1e-3 * d01:
+                    continue
+                p2 = p1 + off / np.linalg.norm(off) * d01 * gen.logu(rng, 1e-4, 1e-1)
+                A3 = np.column_stack([[p0, p1, p2][i_] for i_ in rng.permutation(3)])
             if np.linalg.norm(np.cross(A3[:, 1] - A3[:, 0], A3[:, 2] - A3[:, 0])) < 1e-5:
                 continue
             drive(RUNNERS, ctx, 'plane', dict(which=which, pts=A3))
